@@ -31,11 +31,19 @@ pub struct Ch(pub Vec<u64>);
 
 thread_local! {
     static ALLOC_HOOK: std::cell::RefCell<Option<Box<dyn FnOnce()>>> = const { std::cell::RefCell::new(None) };
+    /// the same for `Channel::new()`. Today the receiver calls it with its lock held ("this method shouldn't
+    /// allocate"), so the armed sender simply runs out of patience and the case is not judged; the hook earns its
+    /// keep when a refactor moves the call out of the critical section (e.g. splits the hand-off in two).
+    static NEW_HOOK: std::cell::RefCell<Option<Box<dyn FnOnce()>>> = const { std::cell::RefCell::new(None) };
 }
 
 impl emit_batcher::Channel for Ch {
     type Item = u64;
     fn new() -> Self {
+        let hook = NEW_HOOK.with(|h| h.borrow_mut().take());
+        if let Some(hook) = hook {
+            hook();
+        }
         Ch(Vec::new())
     }
     fn with_capacity(capacity: usize) -> Self {
@@ -119,6 +127,9 @@ pub enum Op {
     /// Arm the allocation hook: the next time the receiver allocates a buffer (`Channel::with_capacity`, called
     /// outside its lock) a sender on another thread gets a plain `send` in at exactly that instant.
     ArmAllocSend,
+    /// Arm the `Channel::new()` hook: at the receiver's next call a sender on another thread tries to get a plain
+    /// `send` AND a flush request in.
+    ArmNewSendFlush,
 }
 
 #[derive(Serialize, Deserialize, Debug, Clone, Copy, PartialEq)]
@@ -456,6 +467,7 @@ fn run_inner(case: &Case) -> Trace {
     emit_batcher::verif::set_delay_divisor(1);
     let cap = (case.cap as usize).max(1);
     ALLOC_HOOK.with(|h| *h.borrow_mut() = None);
+    NEW_HOOK.with(|h| *h.borrow_mut() = None);
     let (sender, receiver) = emit_batcher::bounded::<Ch>(cap);
     let w: W = Arc::new(Mutex::new(World {
         log: Vec::with_capacity(case.ops.len() * 4 + 16),
@@ -723,6 +735,42 @@ fn run_inner(case: &Case) -> Trace {
                 });
                 ALLOC_HOOK.with(|h| *h.borrow_mut() = Some(hook));
             }
+            Op::ArmNewSendFlush => {
+                let w2 = w.clone();
+                let hook: Box<dyn FnOnce()> = Box::new(move || {
+                    let Some(s) = w2.lock().unwrap().sender.clone() else { return };
+                    w2.lock().unwrap().log.push(Ev::AllocPoint);
+                    let (tx, rx) = std::sync::mpsc::channel();
+                    let w3 = w2.clone();
+                    std::thread::spawn(move || {
+                        let item = {
+                            let mut g = w3.lock().unwrap();
+                            g.next_item += 1;
+                            g.next_item
+                        };
+                        s.send(item);
+                        let id = {
+                            let mut g = w3.lock().unwrap();
+                            g.log.push(Ev::Accepted { item, via: Via::Send, waited: false });
+                            g.next_id += 1;
+                            g.cb_registered += 1;
+                            let id = g.next_id;
+                            g.log.push(Ev::FlushReq { id });
+                            id
+                        };
+                        let f = make_cb(&w3, Cb::Plain, Ev::FlushDone { id, ok: true, inf: true });
+                        let _ = std::panic::catch_unwind(std::panic::AssertUnwindSafe(|| s.when_flushed(f)));
+                        drop(s);
+                        let _ = tx.send(());
+                    });
+                    // short patience: with the lock held (today's code) every armed case pays it in full
+                    match rx.recv_timeout(Duration::from_millis(30)) {
+                        Ok(()) => w2.lock().unwrap().alloc_fired += 1,
+                        Err(_) => w2.lock().unwrap().alloc_blocked = true,
+                    }
+                });
+                NEW_HOOK.with(|h| *h.borrow_mut() = Some(hook));
+            }
             Op::DropSender => {
                 for t in tasks.iter_mut() {
                     if t.fut.take().is_some() {
@@ -823,6 +871,7 @@ fn run_inner(case: &Case) -> Trace {
     drop(tasks);
     drop(_keep_world_when_panicking);
     ALLOC_HOOK.with(|h| *h.borrow_mut() = None);
+    NEW_HOOK.with(|h| *h.borrow_mut() = None);
     let (log, alloc_blocked, alloc_fired) = {
         let mut g = w.lock().unwrap();
         (std::mem::take(&mut g.log), g.alloc_blocked, g.alloc_fired)
@@ -1385,7 +1434,11 @@ pub fn case(w: Weights) -> impl Strategy<Value = Case> {
         1u8..=w.max_cap,
         prop::collection::vec(fragment(w), 0..w.max_len / 2),
         prop_oneof![4 => Just(Drain::Ok), 1 => Just(Drain::Err), 2 => Just(Drain::Retry), 1 => Just(Drain::PanicFuture), 1 => Just(Drain::PanicClosure)],
-        prop_oneof![11 => Just(None), 1 => (any::<u32>(), quiet()).prop_map(Some)],
+        prop_oneof![
+            366 => Just(None),
+            33 => (any::<u32>(), quiet()).prop_map(Some),
+            1 => (any::<u32>(), quiet()).prop_map(|(at, q)| Some((at, q.into_iter().map(|o| if o == Op::ArmAllocSend { Op::ArmNewSendFlush } else { o }).collect()))),
+        ],
     )
         .prop_map(move |(cap, mut frags, drain, quiet)| {
             if let Some((at, q)) = quiet {
@@ -1453,6 +1506,7 @@ pub enum Prop {
 pub fn check(case: &Case, which: Prop, cx: &mut Cx) -> vcore::Res {
     let trace = run(case);
     if trace.alloc_blocked {
+        cx.class_if(case.ops.iter().any(|o| matches!(o, Op::ArmNewSendFlush)), "new-hook-armed");
         cx.class("dontcare:allocation-called-under-the-receiver-lock");
         cx.dont_care();
         return Ok(());
@@ -1460,6 +1514,7 @@ pub fn check(case: &Case, which: Prop, cx: &mut Cx) -> vcore::Res {
     let mut v = judge(&trace, &case.ops);
     let s = &v.stats;
     cx.class_if(case.ops.iter().any(|o| matches!(o, Op::ArmAllocSend)), "allocation-hook-armed");
+    cx.class_if(case.ops.iter().any(|o| matches!(o, Op::ArmNewSendFlush)), "new-hook-armed:not-blocked");
     cx.class_if(trace.alloc_fired > 0, "send-inside-receiver-allocation");
     cx.class_if(case.ops.iter().any(|o| matches!(o, Op::SampleSend { .. })), "self-reported-metrics");
     cx.class_if(s.retries > 0, "retry");
